@@ -763,7 +763,7 @@ def check_solve(A4, b4, tol, cap, prec, sparse, expect_solved=True):
     hist = info["residual_history"]
     ress = [float(h[2]) for h in hist]
     for a, b in (zip(ress, ress[1:]) if expect_solved else ()):     # monotonicity is claimed for nonsingular systems
-        if b > a * (1 + 1e-8) + 1e-14:
+        if not (b <= a * (1 + 1e-8) + 1e-14):
             return {"what": "residual history increases", "pair": [a, b]}
     if info["iterations"] != len(hist):
         return {"what": "iterations != len(history)", "iterations": info["iterations"], "len": len(hist)}
@@ -801,7 +801,7 @@ def check_cycle_optimality(A4, b4):
         y, *_ = np.linalg.lstsq(M @ K, r0, rcond=None)
         best = np.linalg.norm(r0 - M @ K @ y)
         got = np.linalg.norm(Bc - M @ xc)
-        if got > best * (1 + 1e-6) + 1e-10 * np.linalg.norm(Bc):
+        if not (got <= best * (1 + 1e-6) + 1e-10 * np.linalg.norm(Bc)):
             return {"what": "cycle iterate does not minimise the residual over its Krylov space", "cycle": m, "residual": got, "optimum": best}
         prev = xc
         if got <= 1e-12 * np.linalg.norm(Bc):
